@@ -3,6 +3,9 @@
 #define protected public
 #include "clstepcore/instmgr.h"
 #include "clstepcore/sdai.h"
+#ifdef WITH_NAMES
+#include "clstepcore/ExpDict.h"
+#endif
 #undef private
 #undef protected
 #include "../common/stdstreams.h"
@@ -46,6 +49,15 @@ __attribute__((noinline)) int w_at(int idx) { MgrNode *mn = im->GetMgrNode(idx);
 __attribute__((noinline)) int w_index_of(int pi) { MgrNode *mn = im->FindFileId(pool[pi]->StepFileId()); return mn ? im->GetIndex(mn) : -1; }   // GetIndex(SDAI_Application_instance*) is declared but never defined in the library
 __attribute__((noinline)) int w_state_at(int idx) { MgrNode *mn = im->GetMgrNode(idx); return mn ? (int)mn->CurrState() : -1; }
 __attribute__((noinline)) int w_id_of(int pi) { return pool[pi]->StepFileId(); }
+#ifdef WITH_NAMES
+// entity types for the name look-up: instance i is an "Aent" when bit i of kinds is set, otherwise a "Bent"
+__attribute__((noinline)) void w_set_kinds(int kinds) {
+    static EntityDescriptor edA("Aent", (Schema *)0, LFalse, LFalse), edB("Bent", (Schema *)0, LFalse, LFalse);
+    for(int i = 0; i < NPOOL; i++) pool[i]->eDesc = ((kinds >> i) & 1) ? &edA : &edB;
+}
+// InstMgr::GetApplication_instance( keyword, start ): returns the pool slot of the instance found, -1 for ENTITY_NULL
+__attribute__((noinline)) int w_find_name(int start) { SDAI_Application_instance *se = im->GetApplication_instance("AENT", start); return (se == ENTITY_NULL || se == 0) ? -1 : slot_of(se); }
+#endif
 __attribute__((noinline)) int w_max() { return im->MaxFileId(); }
 __attribute__((noinline)) int w_next() { return im->NextFileId(); }
 }
